@@ -203,13 +203,13 @@ pub fn gen(out: &mut Out, thorough: bool) {
     out.count_n("small_token_documents", lines.len() as u64);
     for s in lines.drain(..) { l(s, out); }
     out.exhaustive.push(format!("every VALID document of <= {} tokens over {:?}", if thorough { 6 } else { 5 }, toks));
-    let n = if thorough { 20000 } else { 3000 };
+    let n = if thorough { 150000 } else { 3000 };
     for _ in 0..n {
         let doc = { let mut g = crate::parse::DocGen { rng: &mut out.rng, max_depth: 5 }; g.doc() };
         l(format!("mapped nav {}", cps(&doc)), out);
     }
     // conversions with a wrong-kind value planted at every position
-    let m = if thorough { 4000 } else { 600 };
+    let m = if thorough { 30000 } else { 600 };
     for ty in CONV_TYPES {
         for _ in 0..m / 4 {
             let mut s = String::new();
